@@ -89,3 +89,9 @@ type Assumer interface{ Assumptions() []string }
 // Prelude runs once before the cases (reference self-validation).  An error
 // makes the whole run inconclusive-with-failure (exit 2), never a VIOLATION.
 type Prelude interface{ Prelude() error }
+
+// Deriver computes descriptor-derived fields without executing the library, so
+// that known-finding predicates can be evaluated for crashes as well.
+type Deriver interface {
+	Derive(desc any) map[string]any
+}
